@@ -339,7 +339,10 @@ class Ctx(object):
         }
         # checks that grow the specification beyond the listed properties (ids X01, X02, ...) keep their
         # evidence apart from the per-property files named in MANIFEST.json
-        evdir = os.path.join(VERIF, "evidence", "extra") if self.pid.startswith("X") else os.path.join(VERIF, "evidence")
+        # (VERIF_EVIDENCE_DIR redirects it: mutation / false-alarm runs against scratch copies must not touch the
+        # evidence of the unchanged tree)
+        evroot = os.environ.get("VERIF_EVIDENCE_DIR") or os.path.join(VERIF, "evidence")
+        evdir = os.path.join(evroot, "extra") if self.pid.startswith("X") else evroot
         os.makedirs(evdir, exist_ok=True)
         with open(os.path.join(evdir, self.pid + ".json"), "w") as f:
             json.dump(ev, f, indent=1, default=repr)
